@@ -571,7 +571,7 @@ func generate(w *run.W) {
 		}
 		r := w.Rand("chain", b)
 		tc := &gen.TypeCfg{MaxDepth: 2 + r.IntN(3), Named: namedLeaves, NamedPct: 8, Fallback: true,
-			Leaves:  []string{"int", "string", "bool", "any", "float64", "any", "any", "map[string]any"},
+			Leaves:  []string{"int", "string", "bool", "any", "float64", "any", "any", "map[string]any", "[]uint8", "[4]uint8", "uint8"},
 			MapKeys: []string{"string", "string", "string", "int", "SKey", "uint8"}}
 		for i := 0; i < 100; i++ {
 			a := &chainArgs{Type: gen.RandType(r, tc, 0), Route: [...]string{"unmarshal", "unmarshal", "read", "stream"}[r.IntN(4)], AnyLen: r.IntN(4) == 0}
